@@ -477,6 +477,9 @@ func TestPropShaper(t *testing.T) {
 			// a Shape, many cheap operations in one step, possibly a settings change, the same Shape again
 			q := drawShapeOp(rt, m)
 			m.apply(q)
+			if rapid.IntRange(0, 2).Draw(rt, "doBurst") != 0 {
+				return
+			}
 			pf := m.pfs[q.Slot]
 			switch rapid.IntRange(0, 3).Draw(rt, "burstKind") {
 			case 0:
